@@ -100,18 +100,32 @@ fn gen_near(r: &mut Rng) -> Row {
         1 => q.iter().map(|a| -a + rand_f32(r) * 0.1).collect(),
         _ => (0..dim).map(|_| rand_f32(r) * scale).collect(),
     };
+    let mut tight = false;
     if dim > 32 && r.chance(1, 2) {
         // tail parallel to the query's tail: the tail bound is (nearly) attained
         let c = *r.pick(&[0.5f32, 1.0, 2.0]);
         for i in 32..dim {
             x[i] = q[i] * c;
         }
+        tight = true;
     }
     let m = r.below(3) as u8;
     let p = if r.chance(1, 8) { r.below(dim as u64 + 2) as usize } else { 32.min(dim) };
+    tight = tight && p == 32;
     let mut row = Row { m, p, q, x, w: 0.0, near: true };
     let (b, _) = bound_f64(&row);
     let b = if b.is_finite() { b } else { 0.5 };
+    if tight && m != 0 && r.chance(1, 2) {
+        // "margin" rows: with parallel tails the Cauchy-Schwarz bound is attained, so the exact
+        // distance equals the bound b.  Place the boundary a relative 1e-3 ABOVE it (hundreds of
+        // times the worst f32 accumulation error over <= 64 terms): a sound pre-filter must answer
+        // "can affect"; any under-estimate of the similarity larger than that margin (a dropped
+        // coordinate, a wrong tail split) answers "cannot" on a document well inside the boundary.
+        let mass: f64 = row.q.iter().zip(&row.x).map(|(a, c)| (*a as f64 * *c as f64).abs()).sum();
+        let unit = if m == 1 { 1.0 } else { b.abs().max(1.0).max(mass) };
+        row.w = (b + *r.pick(&[1e-3f64, 3e-3, 1e-2]) * unit) as f32;
+        return row;
+    }
     let j = r.range(0, 16) as f64 - 8.0;
     row.w = (b + j * 6e-8 * b.abs().max(1.0)) as f32;
     row
